@@ -143,7 +143,7 @@ def doSys (ws : List String) : Option String := do
     -- partition bookkeeping
     let nr := nonrf n rf
     let p := mkPart n rb rf fun i => match nr[i]? with
-      | some g => Float.abs (getF k g) < 0.005
+      | some g => smallUnc Float.abs 0 k 0.005 g
       | none => false
     -- get_su_coef(self.m, self.b, self.k, h, self.rb) on the non-rf partitions
     match pvrbOf nr.length (coefRb p) with
@@ -156,11 +156,11 @@ def doSys (ws : List String) : Option String := do
       if regs.any Option.isNone then pure "err:partition" else
       let zero : List Float := List.replicate nt 0
       -- static initial conditions: `static_ic and self.elsize and F0[self.el].any()`
-      let useStatic := d0.isNone && static && p.el.any fun g => getF (force g) 0 != 0
+      let useSt := useStatic static d0.isSome (p.el.map fun g => getF (force g) 0)
       let rows : List (List Float × List Float × List Float) := (List.range n).map fun g =>
         if rf.contains g then
           -- d[rf] = ikrf * force[rf], ikrf = 1.0 / krf
-          ((force g).map fun f => (1.0 / getF k g) * f, zero, zero)
+          ((force g).map fun f => rfRow (getF k g) f, zero, zero)
         else
           match nr.idxOf? g with
           | none => (zero, zero, zero)
@@ -168,12 +168,9 @@ def doSys (ws : List String) : Option String := do
             let mo : Option Float := m.map fun mv => getF mv g
             let r := (regs.getD i none).getD .rigid
             let c := suCoefOpt r mo (getF b g) (getF k g) h
-            let dInit : Float := match d0 with
-              | some dv => getF dv g
-              | none => if useStatic && p.el.contains g then getF (force g) 0 / getF k g else 0
-            let vInit : Float := match v0 with
-              | some vv => getF vv g
-              | none => 0
+            let dInit : Float := initD (d0.map fun dv => getF dv g) useSt (p.el.contains g) (getF k g)
+              (getF (force g) 0)
+            let vInit : Float := initV (v0.map fun vv => getF vv g)
             let hist := runUnc order1 c (dInit, vInit) (force g)
             let d := hist.map Prod.fst
             let v := hist.map Prod.snd
